@@ -10,6 +10,8 @@ CONSTANTS
   Alphabet <- AllCmds
   PreAlphabet <- AllCmds
   Kinds <- AllKinds
+  Modes <- ScriptMode
+  Fins <- NormalFin
   Ctxs <- MainCtx
 INIT Init
 NEXT Next
